@@ -113,7 +113,7 @@ def build_actions(hist, rng, env, rich=None, admit=None):
             if t.get("noargs"):
                 args = []
             kind = {"F": "plain", "U": "plain", "G": "gen", "C": "coro"}[h["f"]]
-            wanted = t["wanted"] and (admit is None or t["sigfunc"]().__code__.co_name in admit)
+            wanted = t["wanted"] and (admit is None or t["sigfunc"]().__code__.co_qualname in admit)
             acts.append({"op": op, "f": t["canon"], "kind": kind, "wanted": wanted, "target": t["name"],
                          "args": args, "kwargs": kwargs, "sigfunc": t["sigfunc"], "selfargs": t["selfargs_f"],
                          "catch": h["catch"], "draw": h["draw"], "id": h["id"]})
@@ -141,13 +141,13 @@ def run_scenario(sc):
     acts, chosen = build_actions(sc["hist"], rng, env, sc.get("rich"), admit)
     targets = {n: t["maker_f"] for n, t in env["targets"].items()}
     S.reset(acts, targets, absmodel.abs_value)
-    reg = env["reg"] if admit is None else {c: (n, w and c.co_name in admit, m) for c, (n, w, m) in env["reg"].items()}
+    reg = env["reg"] if admit is None else {c: (n, w and c.co_qualname in admit, m) for c, (n, w, m) in env["reg"].items()}
     logger = RecordingLogger(S, reg)
     traced_path = env["traced_path"]
     if admit is None:
         code_filter = lambda code: code.co_filename == traced_path  # noqa: E731
     else:
-        code_filter = lambda code: code.co_filename == traced_path and code.co_name in admit  # noqa: E731
+        code_filter = lambda code: code.co_filename == traced_path and code.co_qualname in admit  # noqa: E731
     old_random = mtt.random
     mtt.random = script.FakeRandom()
     err = "NONE"
